@@ -18,7 +18,7 @@ import (
 func newSim(cfg Cfg, seed int64) *Sim {
 	s := &Sim{cfg: cfg, rng: rand.New(rand.NewSource(seed)), parked: map[string]string{}, gates: map[string]chan struct{}{},
 		roles: map[uint64]string{}, entIDs: map[any]int{}, needProceed: map[string]bool{}, removed: map[string]int{},
-		firstTx: map[string][]byte{}, want: map[string][]byte{}, gated: true}
+		firstTx: map[string][]byte{}, want: map[string][]byte{}, gated: true, firing: map[string]bool{}}
 	n := len(cfg.Xid)
 	s.started, s.retd, s.ctxDone, s.ncalls = make([]bool, n), make([]bool, n), make([]bool, n), make([]int, n)
 	return s
@@ -72,6 +72,19 @@ func (s *Sim) follow(steps []step) (followed int, diverged string) {
 		case "Again":
 			if !s.retd[st.int(1)-1] {
 				return i, "Again: the previous call has not returned"
+			}
+		case "Fire", "FireFail":
+			c := st.int(1)
+			if s.started[c-1] && !s.retd[c-1] {
+				return i, "Fire: the previous call has not returned"
+			}
+			if n == "FireFail" && s.closeState == "" {
+				s.conn.mu.Lock()
+				s.conn.failNext["c"+strconv.Itoa(c)] = true
+				s.conn.mu.Unlock()
+			}
+			if !s.fire(c) {
+				return i, "Fire: this client has no one-shot call"
 			}
 		case "SendLock", "Transmit", "TransmitFail", "Proceed", "CancelDone", "CancelLock":
 			role := "c" + strconv.Itoa(st.int(1))
@@ -147,8 +160,14 @@ func (s *Sim) randomRun(ndgram int, urgent bool, wantClose, wantCtx bool) {
 		for c := range s.started {
 			if !s.started[c] {
 				ch = append(ch, choice{"start", c + 1})
+				if s.cfg.V4 && s.rng.Intn(8) == 0 {
+					ch = append(ch, choice{"fire", c + 1}) // this caller's call is a Release
+				}
 			} else if s.retd[c] && s.ncalls[c] < maxCalls && s.closeState == "" {
 				ch = append(ch, choice{"start", c + 1}) // the caller calls again on the same client
+				if s.cfg.V4 && s.rng.Intn(4) == 0 {
+					ch = append(ch, choice{"fire", c + 1})
+				}
 			} else if wantCtx && !s.retd[c] && !s.ctxDone[c] && s.rng.Intn(12) == 0 {
 				ch = append(ch, choice{"ctx", c + 1})
 			}
@@ -180,6 +199,8 @@ func (s *Sim) randomRun(ndgram int, urgent bool, wantClose, wantCtx bool) {
 		switch {
 		case c.kind == "start":
 			s.start(c.arg)
+		case c.kind == "fire":
+			s.fire(c.arg)
 		case c.kind == "ctx":
 			s.ctxCancel(c.arg)
 		case c.kind == "inject":
